@@ -176,12 +176,21 @@ class Gen:
                 loop = "g.cursor_range(c)" if cur else "g"
                 call = ("dL%d_%s<typename LT::%s>(vrt::idx(%s, i), e, c, z);" if cur else
                         "dL%d_%s<typename LT::%s>(vrt::idx(%s, i), e, z);") % (subs[g.name], mode, g.name, path)
+                inner = ("            vrt::pre(%s, i);\n"
+                         "            if(z) vrt::prz(\"z\", %s + \"[\" + std::to_string(i) + \"]\", sbepp::size_bytes(e));\n"
+                         "            %s\n            ++i;\n" % (path, path, call))
+                if mode == "curtag":
+                    # the by-tag cursor mode walks a group of two or more entries as two subranges: [0, 1) and [1, size)
+                    loops = ("        typedef typename decltype(g)::size_type vrt_st;\n        if(g.size() >= 2)\n        {\n"
+                             "            for(const auto e : g.cursor_subrange(c, vrt_st(0), vrt_st(1)))\n            {\n%s            }\n"
+                             "            for(const auto e : g.cursor_subrange(c, vrt_st(1)))\n            {\n%s            }\n        }\n"
+                             "        else\n        {\n            for(const auto e : g.cursor_range(c))\n            {\n%s            }\n        }\n"
+                             % (inner, inner, inner))
+                else:
+                    loops = "        for(const auto e : %s)\n        {\n%s        }\n" % (loop, inner)
                 body.append(
                     "    {\n        auto g = %s;\n        vrt::prg(%s, g.size());\n"
-                    "        if(z) vrt::prz(\"z\", %s, sbepp::size_bytes(g));\n        std::size_t i = 0;\n"
-                    "        for(const auto e : %s)\n        {\n            vrt::pre(%s, i);\n"
-                    "            if(z) vrt::prz(\"z\", %s + \"[\" + std::to_string(i) + \"]\", sbepp::size_bytes(e));\n"
-                    "            %s\n            ++i;\n        }\n    }" % (acc, path, path, loop, path, path, call))
+                    "        if(z) vrt::prz(\"z\", %s, sbepp::size_bytes(g));\n        std::size_t i = 0;\n%s    }" % (acc, path, path, loops))
             for d in level.data:
                 path = 'p + "%s"' % d.name
                 acc = self.get_expr("l", d.name, "LT", mode)
